@@ -23,6 +23,8 @@ enum Step {
     Undo(Mv4),
     /// `Board::make_move` (a new board object)
     Make(Mv4),
+    /// the null move, made in place with `make_move_unchecked` (its contract: the side to move is not in check) and KEPT
+    Null,
 }
 
 thread_local! {
@@ -37,6 +39,10 @@ fn pre_active() -> bool {
 fn parse_steps(t: &str) -> Option<Vec<Step>> {
     let mut v = Vec::new();
     for part in t.split(',') {
+        if part == "n" {
+            v.push(Step::Null);
+            continue;
+        }
         let (k, mv) = part.split_at(1);
         let m = mv4_parse(mv)?;
         v.push(match k {
@@ -95,6 +101,12 @@ fn board_of(t: &[&str]) -> Result<Board, String> {
                 Ok(m) => b = b.make_move(m).map_err(|_| "n/a".to_string())?,
                 Err(_) => return Err("n/a".to_string()),
             },
+            Step::Null => {
+                if b.is_check() {
+                    return Err("n/a".to_string());
+                }
+                let _ = unsafe { moves::make_move_unchecked(&mut b, Move::NULL) };
+            }
         }
     }
     Ok(b)
